@@ -21,7 +21,7 @@ var lightScenario = map[string]bool{"S1-sm2-key": true, "S2-sm2-key-d=n-1": true
 
 // tierDependent lists the scenarios whose shared objects are implemented differently per CPU dispatch tier
 // (SM4 block / AEAD / mode objects, SM3 KDF lanes); only these are repeated on the non-default tiers.
-var tierDependent = map[string]bool{"S8-sm4-shared-block-aead": true, "S12-sm4-shared-block-modes": true, "S9-sm3-constructors": true, "S11-sm9-encrypt-user-key": true}
+var tierDependent = map[string]bool{"S17-zuc-independent-objects": true, "S18-sm4-modes-independent-objects": true, "S19-hash-mac-drbg-padding-independent-objects": true, "S8-sm4-shared-block-aead": true, "S12-sm4-shared-block-modes": true, "S9-sm3-constructors": true, "S11-sm9-encrypt-user-key": true}
 
 func (Prop) SelfTest() error { return nil }
 func (Prop) Rule() string {
@@ -68,6 +68,12 @@ func (Prop) Run(c *engine.Ctx) {
 			if c.Config == "c-race-purego" && lightScenario[sc.name] {
 				yb = 1
 			}
+		}
+		if strings.Contains(sc.name, "independent-objects") {
+			// two threads that never synchronise and share no object: the race detector needs no particular
+			// interleaving to report a conflict at package scope; the serial orders and one pre-emption at the (few)
+			// sync points are enumerated, the function-entry yields are not (thousands of points per thread)
+			yb = 0
 		}
 		if quick && strings.Contains(sc.name, "sm9") && sb > 2 {
 			sb = 2 // an SM9 execution costs 10-20 ms under the race detector (pairings)
